@@ -662,7 +662,7 @@ func isTransformNSrc(v ssa.Value, d int) bool {
 // constants false/true, or from a test made where the flag is known to be false.
 // ---------------------------------------------------------------------------
 
-func c02PartialAccumulates(c *Ctx, p *Prog, pi *parserInfo) {
+func c02PartialAccumulates(c *Ctx, p *Prog, pi *parserInfo, rule string) {
 	fn := pi.fn
 	loops := loopsOf(fn)
 	for _, r := range returnsOf(fn) {
@@ -716,6 +716,6 @@ func c02PartialAccumulates(c *Ctx, p *Prog, pi *parserInfo) {
 				}
 			}
 		}
-		c.Check(bad == "", "C02-R11", fn.Name()+":partial-accumulates", p.pos(r.Pos()), "the partial answer over all candidates is only ever raised, never overwritten "+bad)
+		c.Check(bad == "", rule, fn.Name()+":partial-accumulates", p.pos(r.Pos()), "the partial answer over all candidates is only ever raised, never overwritten "+bad)
 	}
 }
